@@ -134,6 +134,7 @@ func vBuildProject(n int) ([]vType, *JSchema) {
 // (3) when Check() passes, Example() terminates and returns RFC 8259 JSON.
 func VerifC06_Recursion() {
 	zzverif.Expect("accepted", "recursion-reported", "self-requiring")
+	zzverif.BoundIsViolation() // Example() (and Check) must terminate
 	n := zzverif.Bound("types", 3, 3)
 	ts, root := vBuildProject(n)
 	fin := vFinite(ts)
@@ -186,4 +187,60 @@ func vShortestSelfCycle(ts []vType, root int) int {
 		frontier = next
 	}
 	return 0
+}
+
+// VerifC06_ChoiceShapes: four types - @a with two members, @b and @c with one,
+// @d a leaf - every member either a mandatory plain link or a choice
+// `@x | @d` / `@x | @y`: the shapes in which a dead-end alternative of a choice
+// is met before or after a mandatory link to the same type.
+func VerifC06_ChoiceShapes() {
+	zzverif.Expect("accepted", "recursion-reported")
+	zzverif.BoundIsViolation()
+	edge := func(tag string) vEdge {
+		e := vEdge{x: zzverif.IntRange(tag+"x", 0, 2)}
+		switch zzverif.IntRange(tag+"kind", 0, zzverif.Bound("choiceKinds", 1, 2)) {
+		case 0:
+			e.kind = eRequired
+		case 1:
+			e.kind, e.y = eChoice, 3 // other alternative: the leaf
+		default:
+			e.kind, e.y = eChoice, zzverif.IntRange(tag+"y", 0, 2)
+		}
+		return e
+	}
+	ts := []vType{
+		{fields: []vEdge{edge("a1."), edge("a2.")}},
+		{fields: []vEdge{edge("b.")}},
+		{fields: []vEdge{edge("c.")}},
+		{}, // @d: leaf, printed below
+	}
+	text := func(i int) string {
+		if i == 3 {
+			return `{"leaf": 1}`
+		}
+		return vTypeText(ts[i])
+	}
+	root := New(vTypeName(0), text(0))
+	for i := range ts {
+		_ = root.AddType(vTypeName(i), New(vTypeName(i), text(i)))
+	}
+	fin := vFinite(ts)
+	self := vSelfRequiring(ts, 0)
+	zzverif.Known("C06-long-mandatory-cycle", self && vShortestSelfCycle(ts, 0) >= 3)
+	err := root.Check()
+	code := vErrCode(err)
+	if code == errs.ErrInfiniteRecursionDetected {
+		zzverif.Reach("recursion-reported")
+		zzverif.Assert(!fin[0], "'infinite type recursion' is only reported for a root without a finite instance")
+	}
+	if self {
+		zzverif.Assert(code == errs.ErrInfiniteRecursionDetected, "a root that requires itself through mandatory links is reported")
+	}
+	if err == nil {
+		zzverif.Reach("accepted")
+		ex, xerr := root.Example()
+		zzverif.Assert(xerr == nil, "Example() of an accepted schema succeeds")
+		_, ok := zzjson.Decode(ex)
+		zzverif.Assert(ok, "Example() of an accepted schema is RFC 8259 JSON")
+	}
 }
